@@ -322,11 +322,24 @@ mod engine {
                 run.allocs[win] = a1 - a0;
                 a0 = a1;
                 ledger::reset_peak();
+                // a history whose live memory has clearly exploded is not run to the end (the
+                // ledger's live list makes it quadratic); the remaining windows inherit the peak so
+                // that clause (a) reports it
+                if win >= 2 && run.peaks[win] > 4 * run.peaks[0] + (4 << 20) {
+                    let pk = run.peaks[win];
+                    for k in win + 1..NWIN {
+                        run.peaks[k] = pk;
+                    }
+                    run.rounds = (r + 1) as u64;
+                    break;
+                }
                 win += 1;
                 next_edge += w;
             }
         }
-        run.rounds = total as u64;
+        if run.rounds == 0 {
+            run.rounds = total as u64;
+        }
         drop(buf);
         drop(fifo);
         run.leak = ledger::T_LIVE_BYTES.load(Relaxed) as isize - live0 as isize;
